@@ -704,10 +704,21 @@ def _hash_history(spec, rec, d):
     nontrivial = [False]
     ncalls_since = [0] * nfiles
 
+    states = [dict() for _ in range(nfiles)]   # (mtime, size) -> content seen
+
     def put(i, data, step, keep_mtime=False):
         paths[i].write_bytes(data)
         if not keep_mtime:
             mtime[i] += step
+        # The documented cache key is (path, mtime, size, arguments): a state with
+        # the same mtime *and* size as an earlier state of this file but other
+        # content cannot be told apart by design -> outside the contract; move the
+        # modification time on instead (counted).
+        prev = states[i].get((mtime[i], len(data)))
+        if prev is not None and prev != data:
+            mtime[i] += 1000
+            rec.skip("hash:same-mtime-and-size-as-earlier-state-avoided")
+        states[i][(mtime[i], len(data))] = data
         os.utime(paths[i], ns=(mtime[i], mtime[i]))
         if paths[i].stat().st_mtime_ns != mtime[i]:
             coarse[0] = True
